@@ -384,6 +384,20 @@ func (s *scriptT) renderCaller(c *Case, calleeExpr string, setup []string) {
 		d, use := wdecl(res, "return "+call)
 		s.decls = append(s.decls, d)
 		s.run = append(s.run, strings.Join(rs, ", ")+" := "+use)
+	case "retswap":
+		k := "41"
+		if outTypes[0] == "string" {
+			k = `"k"`
+		}
+		d, use := wdecl("(a "+outTypes[0]+", b "+outTypes[0]+")", "a = "+k+"; return "+call+", a")
+		s.decls = append(s.decls, d)
+		s.run = append(s.run, "r0, r1 := "+use, fmt.Sprintf("hp.Rec(\"ret.1\", %q, r1)", outTypes[0]))
+	case "assignmap":
+		for i := 1; i < n; i++ {
+			s.run = append(s.run, fmt.Sprintf("var %s %s", rs[i], outTypes[i]))
+		}
+		s.run = append(s.run, "m0 := map[string]"+outTypes[0]+"{}")
+		s.run = append(s.run, `m0["k"], `+strings.Join(rs[1:], ", ")+" = "+call, `r0 := m0["k"]`)
 	case "retpos":
 		d, use := wdecl("(int, "+outTypes[0]+")", "return 7, "+call)
 		s.decls = append(s.decls, d)
@@ -659,6 +673,13 @@ func nativeCall(c *Case, env *nativeEnv, fv reflect.Value) {
 		for i, r := range res {
 			env.recordStatic(fmt.Sprintf("res.%d", i), nil, r.Interface())
 			recorded[i] = false
+		}
+	case "retswap":
+		// the second operand of the return statement is the result variable as it was: K
+		if ft.Out(0).Kind() == reflect.String {
+			env.recordStatic("ret.1", ft.Out(0), "k")
+		} else {
+			env.recordStatic("ret.1", ft.Out(0), 41)
 		}
 	case "stmt", "defer", "go":
 		for i := range recorded {
